@@ -12,6 +12,7 @@ import Q1t.Proofs.TableauContractQ8
 import Q1t.Proofs.TableauDetShape
 import Q1t.Proofs.TableauProgress
 import Q1t.Proofs.DetShapeAll
+import Q1t.Proofs.EqualStatesAll
 /-!
 # C03 — stabilizer tableau semantics equal state-vector semantics
 
@@ -395,6 +396,41 @@ theorem stabHyps_generated (n : Nat)
       Q1t.Gen.phaseTable (Q1t.Proofs.TabG.conjOfT (A := Empty) Q1t.Gen.conjTable Q1t.Gen.conjNoArityCheck)
       (Q1t.Proofs.TabG.validT (A := Empty) n Q1t.Gen.conjTable) :=
   stabHyps_partial n (det_shape_holds n) hpos half hhalf
+
+/-! ## equal states have the identical tableau — all `n`
+
+`Canon t` (`Proofs/EqualStatesPlan.lean`) is the full post-condition of `normalize`: X-pivot rows first, pivot columns
+strictly increasing, each pivot the leading X-bit of its row and the only X-bit of its column; then the X/Y-free
+Z-pivot rows with the same properties for Z-bits, the pivot column cleared in all rows; then identity rows.
+`HasDual t`: destabilizers exist (the rows are independent).  Both hold on every reachable tableau
+(`reachable_canonical`).  The general theorems replace the finite `equal_states_identical_tableau_n2` /
+`history_independent_n2` (kept above). -/
+
+/-- **Every reachable tableau is in the canonical shape of `normalize` and has destabilizers** (all `n`). -/
+theorem reachable_canonical (n : Nat) (t : Tab) (ψ : List Q8)
+    (h : Q1t.Proofs.TabG.Reach (A := Empty) Q8 n Q1t.Gen.phaseTable Q1t.Gen.conjTable Q1t.Gen.conjNoArityCheck t ψ) :
+    Q1t.Proofs.DetPlan.Canon t ∧ Q1t.Proofs.DetPlan.HasDual t :=
+  Q1t.Proofs.DetPlan.reach_canon_dual n t ψ h
+
+/-- **Equal states have the identical tableau, all `n`**: two tableaux that stabilize the same non-zero vector, are
+in the canonical shape and have destabilizers are equal — same rows in the same order, same signs.  (The rows of one
+commute with the rows of the other, hence are products of them; a reduced echelon basis is unique; two opposite
+signs on a row would give `ψ = −ψ`.) -/
+theorem equal_states_identical_tableau (t1 t2 : Tab) (ψ : List Q8)
+    (h1 : Q1t.Proofs.TabG.StabG Empty t1 ψ) (h2 : Q1t.Proofs.TabG.StabG Empty t2 ψ)
+    (hnz : Q1t.Proofs.TabG.NZ ψ) (hn : t1.n = t2.n)
+    (hc1 : Q1t.Proofs.DetPlan.Canon t1) (hc2 : Q1t.Proofs.DetPlan.Canon t2)
+    (hd1 : Q1t.Proofs.DetPlan.HasDual t1) (hd2 : Q1t.Proofs.DetPlan.HasDual t2) : t1 = t2 :=
+  Q1t.Proofs.DetPlan.equal_states_identical t1 t2 ψ h1 h2 hnz hn hc1 hc2 hd1 hd2
+
+/-- **The tableau depends on the state only, not on the history, all `n`**: two histories of valid claiming gates,
+collapses after `Random` and resets from `|0…0⟩` (generated tables) that end in proportional state vectors end in the
+identical tableau — so the automatic choice of representation cannot change per-shot states. -/
+theorem history_independent (n : Nat) (t1 t2 : Tab) (ψ1 ψ2 : List Q8) (c : Q8)
+    (h1 : Q1t.Proofs.TabG.Reach (A := Empty) Q8 n Q1t.Gen.phaseTable Q1t.Gen.conjTable Q1t.Gen.conjNoArityCheck t1 ψ1)
+    (h2 : Q1t.Proofs.TabG.Reach (A := Empty) Q8 n Q1t.Gen.phaseTable Q1t.Gen.conjTable Q1t.Gen.conjNoArityCheck t2 ψ2)
+    (hprop : ψ2 = ψ1.map (· * c)) : t1 = t2 :=
+  Q1t.Proofs.DetPlan.history_independent_generated n t1 t2 ψ1 ψ2 c h1 h2 hprop
 
 /-! ## non-vacuity -/
 
